@@ -46,6 +46,9 @@ TRUSTED_BASE = [
 ]
 ASSUMPTIONS_OLD = None
 ASSUMPTIONS = [
+    'byte-level theorems: the codec enters through WireCodec.Laws on a domain that must contain everything the run (and, '
+    'for progress, the draining schedule) serialises; from BNet.initH the first read of a link takes its whole '
+    'remaining handshake (HSRun); Hello and messages to the bus itself are outside the model',
     'link assumption (link_refinement): C04 binary_partition_independent + frames_of_messages, C03 parse_marshal',
     'values are compared up to the wire normalisation: tuples read back as lists, wrapper classes as plain '
     'int/str, bytearray as a list of ints; a single struct return is read back as a one-element list holding the '
